@@ -1463,3 +1463,51 @@ def converter_existence(scratch):
     finally:
         os.chdir(old_cwd)
     return fails, n
+
+
+# ------------------------------------------------------------------------------------------------ the other read entry points after close
+
+def aux_reads_after_close(scratch, rng):
+    """CPHD and CRSD readers have read entry points beside read(): per-vector parameters, support arrays, whole blocks.  The clause "after
+    close, reads raise rather than return data" holds for each of them.  A product WITH support arrays is written, opened, read once through
+    every entry point (which must give data), closed, and read again through every entry point.
+    -> (failures, number of reads after close)"""
+    import random
+    import cphdgen
+    from sarpy.io.phase_history.cphd import CPHDWriter1, CPHDReader
+    fails, n = [], 0
+    r = random.Random(rng.random())
+    meta = cphdgen.build_meta('CI4', [(4, 6)], False, [(3, 2, 'IAZ'), (2, 3, 'AGP')])
+    pvp, raw, support = cphdgen.make_pvp(meta, r), cphdgen.make_raw(meta, r), cphdgen.make_support(meta, r)
+    path = os.path.join(tempfile.mkdtemp(dir=scratch), 'aux.cphd')
+    w = CPHDWriter1(path, meta.copy(), check_existence=False)
+    w.write_file_raw(pvp, raw, support)
+    w.close()
+    case = {'machine': 'R', 'root': {'k': 'filereader', 'kids': []}, 'fkind': 'CPHD', 'ftarget': 'path', 'ops': ['aux-reads', 'close', 'aux-reads'], 'nfiles': 1, 'ntemp': 0}
+    rd = CPHDReader(path)
+    entry = [('read_support_array(0)', lambda: rd.read_support_array(0)), ('read_support_array(1, (0, 1))', lambda: rd.read_support_array(1, (0, 1))),
+             ('read_support_block()', lambda: rd.read_support_block()), ('read_pvp_array(0)', lambda: rd.read_pvp_array(0)),
+             ('read_pvp_block()', lambda: rd.read_pvp_block()), ('read_signal_block()', lambda: rd.read_signal_block()),
+             ('read_chip(index=0)', lambda: rd.read_chip(index=0)), ('read_raw(index=0)', lambda: rd.read_raw(index=0))]
+
+    def has_data(v):
+        return (isinstance(v, numpy.ndarray) and v.size > 0) or (isinstance(v, dict) and any(isinstance(x, numpy.ndarray) and x.size for x in v.values()))
+    usable = []
+    for nm, fn in entry:
+        out, ecls, v = call(fn)
+        if out == 'ok' and has_data(v):
+            usable.append((nm, fn))
+        v = None
+    call(rd.close)
+    if not getattr(rd, 'closed', False):
+        fails.append({'key': '', 'step': 1, 'case': case, 'msg': 'CPHD reader: closed is False after close()'})
+    for nm, fn in usable:
+        n += 1
+        out, ecls, v = call(fn)
+        if out == 'ok' and has_data(v):
+            fails.append({'key': 'CPHDReader:' + nm.split('(')[0] + ':returns-data-after-close', 'step': 2, 'case': dict(case, entry_point=nm),
+                          'msg': f'CPHD reader (file with two support arrays): {nm} after close() returned data instead of raising'})
+        v = None
+    rd = None
+    gc.collect()
+    return fails, n, [nm for nm, _ in usable]
